@@ -370,6 +370,23 @@ func (ex *Exec) defineRec(sf *SpecFunc, f string, ptypes []types.Type, rt types.
 	def := "(= " + app(f, terms...) + " " + body.T + ")"
 	ax := "(forall " + bs + " (! " + implies(and(invs...), def) + " :pattern (" + app(f, terms...) + ")))"
 	ex.c.Axiom(key, ax)
+	// flattened (prenex) intro/elim forms: easier to instantiate than the nested definition
+	if sf.Body.Kind == "exists" || sf.Body.Kind == "forall" {
+		inner := strings.TrimPrefix(body.T, "("+sf.Body.Kind+" ")
+		ib := firstArg(inner)
+		rest := strings.TrimSpace(inner[len(ib):])
+		rest = strings.TrimSuffix(rest, ")")
+		if strings.HasPrefix(ib, "(") && !strings.HasPrefix(rest, "(!") {
+			allB := "(" + strings.Join(binders, " ") + " " + strings.TrimSuffix(strings.TrimPrefix(ib, "("), ")") + ")"
+			var flat string
+			if sf.Body.Kind == "exists" {
+				flat = "(forall " + allB + " " + implies(and(append(invs, rest)...), app(f, terms...)) + ")"
+			} else {
+				flat = "(forall " + allB + " " + implies(and(append(invs, app(f, terms...))...), rest) + ")"
+			}
+			ex.c.Axiom(key+".flat", flat)
+		}
+	}
 	for i, fct := range facts {
 		ex.c.Axiom(fmt.Sprintf("%s.fact%d", key, i), "(forall "+bs+" "+fct+")")
 	}
